@@ -686,6 +686,35 @@ def imm_cases() -> list[tuple[str, callable, str, int]]:
     return cs
 
 
+def literal_cases() -> list[tuple[str, callable]]:
+    """literal TEXTS that a constructor copies into the program: whatever it accepts must still be one legal line.
+    Texts: well-formed cores followed / preceded / interrupted by line breaks, blanks, comment and statement separators."""
+    cores = {"base16": ["", "00", "abcd", "0xabcd"], "base32": ["", "ME", "ME======", "MFRGG"], "base64": ["", "YQ==", "QUJD", "QUJDRA=="]}
+    tails = ["", "\n", "\r", "\r\n", "\n\n", " ", "\t", ";", "//", ")", " // x", "\nerr", "\x0b", "\x0c", "\x1c", "\x85", "\u2028", "="]
+    cs = []
+    for base, cl in cores.items():
+        for c in cl:
+            for t in tails:
+                for txt in (c + t, t + c, (c[:2] + t + c[2:]) if len(c) > 2 else None):
+                    if txt is None or (t == "" and txt != c):
+                        continue
+                    cs.append((f"Bytes({base},{txt!r})", _val(lambda base=base, txt=txt: pt.Bytes(base, txt))))
+    addr = "AAAAAAAAAAAAAAAAAAAAAAAAAAAAAAAAAAAAAAAAAAAAAAAAAAAAY5HFKQ"
+    for t in tails:
+        cs.append((f"Addr({(addr + t)!r})", _val(lambda t=t: pt.Addr(addr + t))))
+        cs.append((f"Addr({(addr[:-len(t)] + t)!r})" if t else "Addr(plain)", _val(lambda t=t: pt.Addr((addr[:-len(t)] if t else addr) + t))))
+        cs.append((f"MethodSignature({('f()void' + t)!r})", _val(lambda t=t: pt.MethodSignature("f()void" + t))))
+        cs.append((f"Tmpl.Int({('TMPL_A' + t)!r})", _val(lambda t=t: pt.Tmpl.Int("TMPL_A" + t))))
+        cs.append((f"Tmpl.Bytes({('TMPL_B' + t)!r})", _val(lambda t=t: pt.Tmpl.Bytes("TMPL_B" + t))))
+        cs.append((f"Tmpl.Addr({('TMPL_C' + t)!r})", _val(lambda t=t: pt.Tmpl.Addr("TMPL_C" + t))))
+    seen, out = set(), []
+    for n, th in cs:
+        if n not in seen:
+            seen.add(n)
+            out.append((n, th))
+    return out
+
+
 def many_constants(kind: str, n: int):
     """a program using n distinct constants twice each (constant-block candidates), spread over subroutines of 40
     constants: one long expression or statement list would hit Python's recursion limit (C20)"""
@@ -960,6 +989,12 @@ def run(tier: str) -> int:
             run_.note_outcome("immediates", res[0])
             if res[0] == "ok":
                 run_.submit(res[1], v, mode, {"stream": "immediates", "case": name, "entry": name})
+        for name, th in literal_cases():
+            for okw in ({}, {"assembleConstants": True}):
+                res = compile_expr(th, "app", 6, **okw)
+                run_.note_outcome("literals", res[0])
+                if res[0] == "ok":
+                    run_.submit(res[1], 6, "app", {"stream": "literals", "case": name, "entry": name, "assemble": bool(okw)})
         for kind in ("int", "bytes"):
             for n in (4, 255, 256, 257, 300):
                 for v in (4, 6, 10):
@@ -1107,9 +1142,11 @@ def _rebuild(data: dict):
     if s in ("gen",):
         prog, version, m, _ = gen_case(data["index"])
         return recipes.compile_real(prog, version, **data.get("opts", {}))
-    if s in ("catalogue", "fields", "immediates", "tails"):
-        table = dict(catalogue() + field_catalogue() + [(n, t) for n, t, _, _ in imm_cases()] + tail_cases())
+    if s in ("catalogue", "fields", "immediates", "tails", "literals"):
+        table = dict(catalogue() + field_catalogue() + [(n, t) for n, t, _, _ in imm_cases()] + tail_cases() + literal_cases())
         kw = {"optimize": pt.OptimizeOptions(scratch_slots=True)} if data.get("opt") else {}
+        if data.get("assemble"):
+            kw["assembleConstants"] = True
         return compile_expr(table[data["entry"]], mode, v, **kw)
     if s == "constants":
         return compile_expr(many_constants(data["kind"], data["n"]), mode, v, assembleConstants=True)
